@@ -128,6 +128,79 @@ def outcome_mismatch(cpp, ref, treename):
     return False, "rows agree"
 
 
+FP_FLAG_RE = __import__("re").compile(
+    r"(?<![\w-])(-Ofast|-ffast-math|-funsafe-math-optimizations|-ffinite-math-only|-fassociative-math|-freciprocal-math|"
+    r"-fno-signed-zeros|-fno-honor-nans|-fno-honor-infinities|-fapprox-func|-ffp-model=fast|-mrecip(?:=[\w,!-]+)?|"
+    r"-fcx-limited-range)(?![\w-])")
+
+_FP_WITNESS = r"""
+#include <cmath>
+#include <cstdio>
+#include <cstring>
+#include <limits>
+static void show(const char *n, double v) { unsigned long long b; std::memcpy(&b, &v, 8); std::printf("%s %016llx\n", n, b); }
+int main(int argc, char **) {
+  volatile double mz = -0.0, minf = -std::numeric_limits<double>::infinity(), nan = std::nan(""), a = 0.3, b = 50.1, c = 3.0, d = 10.0,
+                  x = 1e16, y = -1e16, z = 1.0, h1 = 3.0, h2 = 4.1, seven = 7.0;
+  double A = a, B = b, C = c, D = d, X = x, Y = y, Z = z;
+  show("pow(-0,0.5)", std::pow(mz, 0.5));
+  show("pow(-inf,0.5)", std::pow(minf, 0.5));
+  show("sin(a)/3", std::sin(A) / 3.0);
+  show("log(b)/10", std::log(B) / 10.0);
+  show("hypot/7+1", std::hypot(h1, h2) / 7.0 + 1.0);
+  show("(x+y)+z", (X + Y) + Z);
+  show("x+(y+z)", X + (Y + Z));
+  show("a/c", A / C);
+  show("b/d", B / D);
+  show("isnan", std::isnan(nan) ? 1.0 : 0.0);
+  show("nan!=nan", (nan != nan) ? 1.0 : 0.0);
+  show("isinf", std::isinf(minf) ? 1.0 : 0.0);
+  show("fmax(nan,1)", std::fmax(nan, Z));
+  show("0*-0", 0.0 * mz);
+  show("a-a*1", A - A * Z);
+  return 0;
+}
+"""
+_FP_WITNESS_CACHE = {}
+
+
+def fp_flags_witness(flags):
+    """(differs, text): does compiling the witness with `flags` change any printed bit pattern?  Tried with every installed
+    compiler the replay can use; cached per flag set (one compile per worker process at most)."""
+    if flags in _FP_WITNESS_CACHE:
+        return _FP_WITNESS_CACHE[flags]
+    import subprocess
+    import tempfile
+    out = (False, "no compiler available")
+    with tempfile.TemporaryDirectory(prefix="verif-fpw-", dir=os.environ.get("VERIF_SCRATCH") or None) as td:
+        src = Path(td) / "w.cxx"
+        src.write_text(_FP_WITNESS)
+        notes = []
+        for cxx_ in ("g++", "clang++"):
+            if not shutil.which(cxx_):
+                continue
+            res = []
+            for i, extra in enumerate(([], list(flags))):
+                exe = Path(td) / f"w{i}"
+                c = subprocess.run([cxx_, "-std=c++17", "-O2", *extra, str(src), "-o", str(exe)], capture_output=True, text=True)
+                if c.returncode != 0:
+                    res.append(None)
+                    notes.append(f"{cxx_} rejects {' '.join(extra)}")
+                    continue
+                res.append(subprocess.run([str(exe)], capture_output=True, text=True).stdout)
+            if None in res:
+                continue
+            if res[0] != res[1]:
+                d = [f"{la.split()[0]}: {la.split()[1]} -> {lb.split()[1]}" for la, lb in zip(res[0].splitlines(), res[1].splitlines()) if la != lb]
+                out = (True, f"{cxx_} -O2 vs -O2 {' '.join(flags)}: " + "; ".join(d[:4]))
+                break
+            notes.append(f"{cxx_}: identical output")
+        else:
+            out = (False, "; ".join(notes))
+    _FP_WITNESS_CACHE[flags] = out
+    return out
+
+
 class ProgramResult:
     def __init__(self, prog):
         self.prog = prog
@@ -363,6 +436,7 @@ class Analyzer:
             self._schema(enc, r)
         if "rows" in self.want:
             self._all_events(enc.pkg, r)
+            self._fp_build_flags(enc.pkg, r)
         if "complete" in self.want:
             self._complete(enc, r)
         if "store" in self.want:
@@ -439,7 +513,7 @@ class Analyzer:
             V.append(v2)
         r.solver_seconds = sum(x.seconds for x in V)
         for v in V:
-            if v.status == "cex" and v.name == "all_events":
+            if v.status == "cex" and v.name in ("all_events", "fp_build_flags"):
                 d = bundle_dir(self.prop, prog, v.name)
                 write_bundle(d, prog, pkg, {"obligation": v.name, "text": v.detail, "kind": "front-end fact (no event needed)"})
                 r.violations.append({"obligation": v.name, "text": v.detail, "replay": str(d)})
@@ -584,6 +658,30 @@ class Analyzer:
         v.frontend_fact = True
         r.verdicts.append(v)
 
+    def _fp_build_flags(self, pkg, r):
+        """Guard of an encoding assumption: engine A gives the emitted arithmetic and <cmath> calls their IEEE / ISO C++ meaning.
+        That meaning is the compiler's only while the build files the package ships do not switch on value-changing
+        floating-point optimisation (-Ofast, -ffast-math and its members).  Such a flag is reported only after a witness
+        program compiled with and without the flags (clang and g++, as the replay does) prints different numbers."""
+        flags = []
+        for name, text in pkg.files.items():
+            if name.endswith(("CMakeLists.txt", "BuildFile.xml", ".sh", ".cmake")):
+                for m in FP_FLAG_RE.finditer(text):
+                    flags.append((name, m.group(1)))
+        if not flags:
+            v = Verdict("fp_build_flags", "holds", "")
+        else:
+            fl = tuple(sorted({f for _, f in flags}))
+            differs, log = fp_flags_witness(fl)
+            where = ", ".join(f"{n}: {f}" for n, f in flags)
+            if differs:
+                v = Verdict("fp_build_flags", "cex", f"the package is built with {where}: under these flags the compiler no longer evaluates the "
+                            f"emitted arithmetic / std:: math calls with their IEEE meaning ({log})")
+            else:
+                v = Verdict("fp_build_flags", "inconclusive", f"build flags {where} present; witness program shows no difference ({log})")
+        v.frontend_fact = True
+        r.verdicts.append(v)
+
     def _complete(self, enc, r):
         "C02 front-end facts (decided by the encoder front end, not by the solver)."
         import re as _re
@@ -658,7 +756,7 @@ class Analyzer:
         r.verdicts.append(v)
 
     def _confirm(self, prog, enc, v, r, patches):
-        if v.name in ("schema", "complete", "store_requests", "all_events"):
+        if v.name in ("schema", "complete", "store_requests", "all_events", "fp_build_flags"):
             d = bundle_dir(self.prop, prog, v.name)
             write_bundle(d, prog, enc.pkg, {"obligation": v.name, "text": v.detail, "kind": "front-end fact (no event needed)"})
             r.violations.append({"obligation": v.name, "text": v.detail, "replay": str(d)})
